@@ -16,7 +16,8 @@ Obs == (11 :> [kind |-> "static",  shape |-> <<"rect", 2, 1>>, t0 |-> 0, poses |
        (12 :> [kind |-> "static",  shape |-> <<"disc", 1, 0>>, t0 |-> 0, poses |-> <<<<2, 2, 0>>>>]) @@         \* disc touching 2 and 3
        (13 :> [kind |-> "dynamic", shape |-> <<"rect", 1, 1>>, t0 |-> 0, poses |-> <<<<2, 2, 0>>, <<4, 2, 0>>, <<6, 2, 1>>>>]) @@  \* crosses the shared edge
        (14 :> [kind |-> "dynamic", shape |-> <<"poly", 2, 2>>, t0 |-> 1, poses |-> <<<<2, 4, 0>>>>]) @@          \* no prediction, on the edge 1|3
-       (15 :> [kind |-> "dynamic", shape |-> <<"rect", 3, 1>>, t0 |-> 0, poses |-> <<<<2, 2, 0>>, <<2, 2, 1>>, <<2, 2, 0>>>>])  \* turning on the spot: {1,2} / {1,3}
+       (15 :> [kind |-> "dynamic", shape |-> <<"rect", 3, 1>>, t0 |-> 0, poses |-> <<<<2, 2, 0>>, <<2, 2, 1>>, <<2, 2, 0>>>>]) @@  \* turning on the spot: {1,2} / {1,3}
+       (16 :> [kind |-> "dynamic", shape |-> <<"roff", 1, 1>>, t0 |-> 0, poses |-> <<<<3, 2, 0>>, <<3, 2, 1>>>>])   \* reference point in 1, shape centred in 2
 W0 == [L |-> DOMAIN Lan, lan |-> Lan, O |-> DOMAIN Obs, ob |-> Obs]
 
 VARIABLES present, rel, regS, regD, failed, steps, act,
